@@ -457,6 +457,14 @@ func TupleCall(v ssa.Value) (*ssa.Call, int) {
 // a method, or the function literal of a directly invoked closure.
 func Callee(cc *ssa.CallCommon) *ssa.Function {
 	if f := cc.StaticCallee(); f != nil {
+		// inside a generic body a call of another generic function with the
+		// enclosing type parameters names an instance without a body: its
+		// generic origin is what runs
+		if f.Blocks == nil {
+			if o := f.Origin(); o != nil && o.Blocks != nil {
+				return o
+			}
+		}
 		return f
 	}
 	if cc.IsInvoke() {
